@@ -12,10 +12,13 @@
 EXTENDS Cid, TraceBase
 
 VARIABLE s
-LimitAdv == 8
+\* limits: init carries lim_c / lim_s, the active_connection_id_limit each endpoint advertises (aioquic: 8 unless the harness set
+\* another one on the fresh object); an endpoint issues at most what its PEER advertised and stores at most what IT advertised
+Peer(p) == IF p = "c" THEN "s" ELSE "c"
+MinOf(a, b) == IF a < b THEN a ELSE b
 E0(cid0peer) == [map |-> (cid0peer :> 0), rpt |-> 0, used |-> {}, sentRetire |-> {}, closed |-> FALSE,
                  issued |-> {0}, retiredByPeer |-> {}, everUsed |-> {}, cur |-> -1]
-S0(e) == [c |-> E0(e.cid0_s), s |-> E0(e.cid0_c), delivered |-> {}]
+S0(e) == [c |-> E0(e.cid0_s), s |-> E0(e.cid0_c), delivered |-> {}, lim |-> [c |-> e.lim_c, s |-> e.lim_s]]
 SeqOf(x, cid) == IF cid \in DOMAIN x.map THEN x.map[cid] ELSE -1
 Known(x) == {x.map[c] : c \in DOMAIN x.map}
 \* IDs ep no longer may use: below the retire-prior-to it processed, or used earlier and left for another one
@@ -43,20 +46,23 @@ Cl(st, e) ==
          << <<"packet-addressed-at-or-above-retire-prior-to", (q >= 0 /\ ~x.closed) => UseOk(q, x.rpt)>>,
             <<"packet-never-addressed-to-an-id-announced-as-retired",
                (q >= 0 /\ ~x.closed) => ~\E sr \in x.sentRetire : sr[1] = q /\ sr[2] # e.dg>>,
-            <<"active-issued-ids-within-peer-limit", IssueOk(Cardinality(issued2 \ x.retiredByPeer), LimitAdv)>> >>
+            <<"active-issued-ids-within-peer-limit", IssueOk(Cardinality(issued2 \ x.retiredByPeer), st.lim[Peer(e.ep)])>> >>
     [] e.ev = "end" ->
          << <<"retirement-announced-for-every-abandoned-id",
                \A p \in {"c", "s"} : (st[p].closed \/ ~e.quiescent) \/
                   \A q \in AbandonedIn(st[p]) : \E sr \in st[p].sentRetire : sr[1] = q /\ sr[2] \in st.delivered>>,
             <<"stored-ids-within-advertised-limit",
                \A p \in {"c", "s"} : st[p].closed \/
-                  StoredOk(Cardinality({q \in Known(st[p]) : q >= st[p].rpt /\ ~\E sr \in st[p].sentRetire : sr[1] = q}), LimitAdv)>>,
+                  StoredOk(Cardinality({q \in Known(st[p]) : q >= st[p].rpt /\ ~\E sr \in st[p].sentRetire : sr[1] = q}), st.lim[p])>>,
             <<"retired-ids-are-replaced",
-               \A p \in {"c", "s"} : (st[p].closed \/ ~e.quiescent \/ Cardinality(st[p].issued) < LimitAdv) \/
-                  Cardinality(st[p].issued \ st[p].retiredByPeer) >= LimitAdv>> >>
+               \* (an endpoint that ever had as many IDs outstanding as it is willing to issue - the peer's limit, at most
+               \* aioquic's own 8 - has that many again once everything settled)
+               \A p \in {"c", "s"} : LET want == MinOf(8, st.lim[Peer(p)]) IN
+                  (st[p].closed \/ ~e.quiescent \/ Cardinality(st[p].issued) < want) \/
+                  Cardinality(st[p].issued \ st[p].retiredByPeer) >= want>> >>
     [] OTHER -> << >>
 
-TInit == l = 1 /\ s = S0([cid0_c |-> 0, cid0_s |-> 0]) /\ Init
+TInit == l = 1 /\ s = S0([cid0_c |-> 0, cid0_s |-> 0, lim_c |-> 8, lim_s |-> 8]) /\ Init
 TNext == /\ \/ /\ l <= Len(Lines)
                /\ LET f == FirstFailing(Cl(s, Lines[l])) IN
                     IF f = "" THEN TRUE ELSE PrintT(<<"TRACE-FAIL", l, f>>)
